@@ -10,8 +10,8 @@
    Side conditions, both witnessed as necessary in Lzma2ExamplesProofs.v:
      - no end marker among the LZMA2 symbols (the writer MODEL does not reject it; the real LZMA2
        encoder never emits one): lzma2_end_marker_refuted;
-     - preset dictionary: None, or non-empty (Some [] makes writer and reader disagree on whether
-       the first chunk must reset the dictionary: lzma2_empty_preset_refuted).
+     - preset dictionary: None, or non-empty (an empty preset counts as none since /repo fix
+       14cc6e9; before it writer and reader disagreed: see lzma2_empty_preset_fixed).
    The bound on coded decisions per chunk needed by the range-coder theorem is DERIVED: a chunk
    holds at most 2^21 bytes, every symbol produces at least one byte and at most 64 decisions.
    PARTIAL (preset): not proved for a preset LONGER than a dictionary size that the reader rounds
@@ -63,8 +63,4 @@ Theorem C01_lzma2_end_marker_refuted :
   exists data evs, bytes_ok data = true /\ ~ l2_no_end evs /\
     l2_run 3 0 2 4096 None data evs [5] = Ok ([], E_INVALID_INPUT).
 Proof. exact lzma2_end_marker_refuted. Qed.
-
-Theorem C01_lzma2_empty_preset_refuted :
-  exists data evs, bytes_ok data = true /\ l2_no_end evs /\
-    l2_run 3 0 2 4096 (Some []) data evs [5] = Ok ([], E_INVALID_INPUT).
-Proof. exact lzma2_empty_preset_refuted. Qed.
+Print Assumptions C01_lzma2_end_marker_refuted.
